@@ -1,6 +1,6 @@
 // C56 driver: runs the REAL tfel::material::SlipSystemsDescription (compiled from REPO sources by check.py) on
 // slip-system families read from stdin, prints what its public API returns.
-// input lines:  [geo] <cubic|fcc|bcc|hcp> b0 b1 b2 [b3] p0 p1 p2 [p3] [b.. p..]*
+// input lines:  [geo|im] <cubic|fcc|bcc|hcp> b0 b1 b2 [b3] p0 p1 p2 [p3] [b.. p..]*
 //   (several families may follow each other; "geo": also print normals, directions, orientation / climb tensors and
 //    Schmid factors for seven loading directions)
 #include <cstdio>
@@ -62,7 +62,10 @@ int main() {
     std::string w;
     is >> w;
     const bool geo = (w == "geo");
-    if (geo) is >> w;
+    // "im": also print the structure of the interaction matrix (number of coefficients, rank of every ordered pair
+    // of systems through InteractionMatrixStructure::getRank, size of every class)
+    const bool im = (w == "im");
+    if (geo || im) is >> w;
     const auto cs = cs_of(w);
     const bool hcp = cs == CrystalStructure::HCP;
     std::printf("BEGIN %s\n", line.c_str());
@@ -108,6 +111,21 @@ int main() {
           }
           const auto sf = d.getSchmidFactors(dv, f);
           for (auto x : sf) std::printf(" %.21Lg", x);
+          std::printf("\n");
+        }
+      }
+      if (im) {
+        const auto ims = d.getInteractionMatrixStructure();
+        std::vector<SSD::system> all;
+        for (const auto& fam : d.getSlipSystems())
+          for (const auto& g : fam) all.push_back(g);
+        std::printf("IMR %zu %zu\n", ims.rank(), all.size());
+        std::printf("IMC");
+        for (const auto& cl : ims.getSlidingSystemsInteraction()) std::printf(" %zu", cl.size());
+        std::printf("\n");
+        for (const auto& g1 : all) {
+          std::printf("IM");
+          for (const auto& g2 : all) std::printf(" %zu", ims.getRank(g1, g2));
           std::printf("\n");
         }
       }
